@@ -235,4 +235,49 @@ fn c10_compressed_pages__same_values_for_every_codec__nat() {
     assert!(equal_size_pages > 0, "the family contains no page whose compressed size equals its uncompressed size");
 }
 
+// C10 (bounded stand-in, native; NOT a proof): a data page v2 in a column chunk whose codec is UNCOMPRESSED is read
+// whatever its header says about `is_compressed` (the flag is optional and defaults to true; writers set it either
+// way; with no codec there is nothing to decompress): flag absent / true / false x 1..=9 rows with NULLs at every
+// position pattern of <= 4 rows -> exactly the encoded rows.
+#[test]
+fn c10_page_v2__uncompressed_chunk_read_whatever_the_compressed_flag__nat() {
+    let mut cases = 0usize;
+    for flag in [None, Some(true), Some(false)] {
+        for n in 1..=4usize {
+            for pattern in 0..(1u32 << n) {
+                let rows: Vec<Option<i32>> = (0..n).map(|i| if pattern & (1 << i) != 0 { Some(100 + i as i32 * 7) } else { None }).collect();
+                // definition levels: one bit-packed group of 8 (width 1)
+                let mut defs = 0u8;
+                for (i, r) in rows.iter().enumerate() {
+                    if r.is_some() {
+                        defs |= 1 << i;
+                    }
+                }
+                let levels = vec![(1u8 << 1) | 1, defs];
+                let mut data = levels.clone();
+                for v in rows.iter().flatten() {
+                    data.extend(v.to_le_bytes());
+                }
+                let nulls = rows.iter().filter(|r| r.is_none()).count() as i32;
+                let h = format::PageHeader {
+                    type_: format::PageType::DATA_PAGE_V2,
+                    uncompressed_page_size: data.len() as i32,
+                    compressed_page_size: data.len() as i32,
+                    crc: None,
+                    data_page_header: None,
+                    index_page_header: None,
+                    dictionary_page_header: None,
+                    data_page_header_v2: Some(format::DataPageHeaderV2::new(n as i32, nulls, n as i32, format::Encoding::PLAIN, levels.len() as i32, 0, flag, None)),
+                };
+                let mut chunk = header_bytes(&h);
+                chunk.extend(data);
+                let got = run(&chunk, 1, n);
+                assert!(got == Ok(rows.clone()), "data page v2 of an UNCOMPRESSED chunk with is_compressed = {flag:?} is not read back: rows {rows:?}, got {got:?}");
+                cases += 1;
+            }
+        }
+    }
+    assert!(cases == 3 * 30);
+}
+
 include!("/verif/build/kani-gen/pq_page.playback.rs");
